@@ -187,3 +187,123 @@ Qed.
 Definition temperature_units : list string :=
   map (fun u => hd ""%string (u_ids u))
       (filter (fun u => match u_conv u with Temperature _ _ => true | _ => false end) all_units).
+
+(* ---------------------------------------------------------------- composition, temperature kind *)
+(* A -> B -> C runs the chain  toK_A ++ fromK_B ++ toK_B ++ fromK_C,  A -> C runs  toK_A ++ fromK_C;  over the
+   reals fromK_B then toK_B cancel, so both are within their error recurrences of the same exact value *)
+Definition comp_ops (ta fb tb fc : tempfn) : list aop :=
+  tempfn_ops ta ++ tempfn_ops fb ++ tempfn_ops tb ++ tempfn_ops fc.
+Definition direct_ops (ta fc : tempfn) : list aop := tempfn_ops ta ++ tempfn_ops fc.
+
+Lemma comp_is_chain : forall ua ub uc ta fa tb fb tc fc v,
+  u_conv ua = Temperature ta fa -> u_conv ub = Temperature tb fb -> u_conv uc = Temperature tc fc ->
+  through_base fl (through_base fl v ua ub) ub uc = run_fl (comp_ops ta fb tb fc) v /\
+  through_base fl v ua uc = run_fl (direct_ops ta fc) v.
+Proof.
+  intros ua ub uc ta fa tb fb tc fc v Ha Hb Hc.
+  unfold through_base, convert_from_base, convert_to_base, comp_ops, direct_ops.
+  rewrite Ha, Hb, Hc. rewrite !tempfn_apply_ops, !run_fl_app. split; reflexivity.
+Qed.
+
+Lemma comp_exact : forall ta fb tb fc x, inverse_pair tb fb = true ->
+  run_R (comp_ops ta fb tb fc) x = run_R (direct_ops ta fc) x.
+Proof.
+  intros ta fb tb fc x Hb. unfold comp_ops, direct_ops. rewrite !run_R_app.
+  destruct (inverse_pair_R tb fb (run_R (tempfn_ops ta) x) Hb) as [_ E]. now rewrite E.
+Qed.
+
+Lemma comp_cst : forall ta fb tb fc,
+  forallb (fun o => cstb (aop_c o)) (comp_ops ta fb tb fc) = true /\
+  forallb (fun o => cstb (aop_c o)) (direct_ops ta fc) = true.
+Proof.
+  intros. unfold comp_ops, direct_ops. rewrite !forallb_app, !tempfn_ops_cst. split; reflexivity.
+Qed.
+
+Lemma comp_bounded : forall ta fa tb fb tc fc a V X,
+  inverse_pair ta fa = true -> inverse_pair tb fb = true -> inverse_pair tc fc = true ->
+  - V <= a <= V -> X = 9 * (V + 1000) ->
+  bounded_by (comp_ops ta fb tb fc) a X /\ bounded_by (direct_ops ta fc) a X.
+Proof.
+  intros ta fa tb fb tc fc a V X Ia Ib Ic Ha HX. pose proof RV_cA as HA.
+  destruct ta, fa; try discriminate Ia; destruct tb, fb; try discriminate Ib;
+    destruct tc, fc; try discriminate Ic;
+    cbn [comp_ops direct_ops tempfn_ops app bounded_by aop_R];
+    rewrite ?RV_c32, ?RV_c5, ?RV_c9; repeat split; apply Rabs_le; split; lra.
+Qed.
+
+Lemma comp_gains : forall ta fa tb fb tc fc,
+  inverse_pair ta fa = true -> inverse_pair tb fb = true -> inverse_pair tc fc = true ->
+  (pref_ok (1001 / 1000) 200 [] (comp_ops ta fb tb fc) /\ gSw (1001 / 1000) (comp_ops ta fb tb fc) <= 200) /\
+  (pref_ok (1001 / 1000) 200 [] (direct_ops ta fc) /\ gSw (1001 / 1000) (direct_ops ta fc) <= 200).
+Proof.
+  intros ta fa tb fb tc fc Ia Ib Ic.
+  destruct ta, fa; try discriminate Ia; destruct tb, fb; try discriminate Ib;
+    destruct tc, fc; try discriminate Ic;
+    cbn [comp_ops direct_ops tempfn_ops app pref_ok gSw gPw gain];
+    rewrite ?gain_c5, ?gain_c9; repeat split; lra.
+Qed.
+
+(* a chain with the three facts: explicit error *)
+Lemma chain_explicit : forall ops v V X,
+  forallb (fun o => cstb (aop_c o)) ops = true ->
+  fval v -> V = Rabs (RV v) -> V <= bpow radix2 1000 -> X = 9 * (V + 1000) ->
+  bounded_by ops (RV v) X -> pref_ok (1001 / 1000) 200 [] ops -> gSw (1001 / 1000) ops <= 200 ->
+  fval (run_fl ops v) /\ Rabs (RV (run_fl ops v) - run_R ops (RV v)) <= 200 * (u64 * X + eta64).
+Proof.
+  intros ops v V X Hc Fv HV Bv HX Bd Pf Gs.
+  assert (V0 : 0 <= V) by (rewrite HV; apply Rabs_pos).
+  assert (U : 0 < u64) by apply bpow_gt_0. assert (E : 0 < eta64) by apply bpow_gt_0.
+  pose proof w_ok as W1.
+  assert (X0 : 0 <= X) by (rewrite HX; lra).
+  assert (HB : X + 200 * (u64 * X + eta64) <= bpow radix2 1022).
+  { assert (X <= bpow radix2 1005).
+    { rewrite HX. change 1005%Z with (1000 + 5)%Z. rewrite bpow_plus. change (bpow radix2 5) with 32.
+      assert (1000 <= bpow radix2 1000).
+      { apply Rle_trans with (bpow radix2 10); [change (bpow radix2 10) with 1024; lra|apply bpow_le; lia]. }
+      lra. }
+    assert (u64 <= 1) by (unfold u64; change 1 with (bpow radix2 0); apply bpow_le; lia).
+    assert (eta64 <= 1) by (unfold eta64; change 1 with (bpow radix2 0); apply bpow_le; lia).
+    assert (u64 * X <= X) by (rewrite <- (Rmult_1_l X) at 2; apply Rmult_le_compat_r; lra).
+    assert (1 <= bpow radix2 1005) by (change 1 with (bpow radix2 0); apply bpow_le; lia).
+    apply Rle_trans with (402 * bpow radix2 1005); [lra|].
+    apply Rle_trans with (bpow radix2 9 * bpow radix2 1005).
+    - apply Rmult_le_compat_r; [apply bpow_ge_0|]. change (bpow radix2 9) with 512. lra.
+    - rewrite <- bpow_plus. apply bpow_le. lia. }
+  pose proof (safe_of_pref (1001 / 1000) 200 X ops [] (RV v) W1 Hc Bd Pf HB) as Hs. cbn [run_R err] in Hs.
+  destruct (chain_error ops v (RV v) 0 Fv Hc (Rle_refl 0)) as [F Er]; [|exact Hs|].
+  { replace (RV v - RV v) with 0 by ring. rewrite Rabs_R0. lra. }
+  split; [exact F|]. eapply Rle_trans; [exact Er|].
+  eapply Rle_trans; [apply (err_bound _ _ 0 X Hc (Rle_refl 0) Bd)|].
+  rewrite Rmult_0_r, Rplus_0_l.
+  pose proof (gSw_mono (1001 / 1000) _ Hc W1) as M.
+  assert (P : 0 <= u64 * X + eta64) by (assert (0 <= u64 * X) by (apply Rmult_le_pos; lra); lra).
+  apply Rmult_le_compat_r; [exact P|lra].
+Qed.
+
+Theorem composition_float_temperature_table : forall ua ub uc ta fa tb fb tc fc v,
+  In ua all_units -> In ub all_units -> In uc all_units ->
+  u_conv ua = Temperature ta fa -> u_conv ub = Temperature tb fb -> u_conv uc = Temperature tc fc ->
+  fval v -> Rabs (RV v) <= bpow radix2 1000 ->
+  let direct := through_base fl v ua uc in
+  let via := through_base fl (through_base fl v ua ub) ub uc in
+  Rabs (RV via - RV direct) <= 400 * (u64 * (9 * (Rabs (RV v) + 1000)) + eta64).
+Proof.
+  intros ua ub uc ta fa tb fb tc fc v Ia Ib Ic Ha Hb Hc Fv Bv direct via.
+  pose proof (table_wellformed ua Ia) as Wa. pose proof (table_wellformed ub Ib) as Wb.
+  pose proof (table_wellformed uc Ic) as Wc.
+  unfold unit_wf in Wa, Wb, Wc. rewrite Ha in Wa. rewrite Hb in Wb. rewrite Hc in Wc.
+  destruct (comp_is_chain ua ub uc ta fa tb fb tc fc v Ha Hb Hc) as [Ev Ed].
+  unfold via, direct. rewrite Ev, Ed.
+  set (V := Rabs (RV v)) in *. set (X := 9 * (V + 1000)).
+  assert (HV : - V <= RV v <= V) by (apply Rabs_le_inv; unfold V; apply Rle_refl).
+  destruct (comp_bounded ta fa tb fb tc fc (RV v) V X Wa Wb Wc HV eq_refl) as [B1 B2].
+  destruct (comp_gains ta fa tb fb tc fc Wa Wb Wc) as [[P1 G1] [P2 G2]].
+  destruct (comp_cst ta fb tb fc) as [C1 C2].
+  destruct (chain_explicit _ v V X C1 Fv eq_refl Bv eq_refl B1 P1 G1) as [_ E1].
+  destruct (chain_explicit _ v V X C2 Fv eq_refl Bv eq_refl B2 P2 G2) as [_ E2].
+  rewrite (comp_exact ta fb tb fc (RV v) Wb) in E1.
+  set (ex := run_R (direct_ops ta fc) (RV v)) in *.
+  replace (RV (run_fl (comp_ops ta fb tb fc) v) - RV (run_fl (direct_ops ta fc) v))
+    with ((RV (run_fl (comp_ops ta fb tb fc) v) - ex) - (RV (run_fl (direct_ops ta fc) v) - ex)) by ring.
+  eapply Rle_trans; [apply Rabs_triang|]. rewrite Rabs_Ropp. fold X. lra.
+Qed.
